@@ -142,7 +142,7 @@ Lemma ceil_div_bounds n d : 0 <= n -> 0 < d -> 0 <= ceil_div n d <= n + (d - 1).
 Proof.
   intros Hn Hd. unfold ceil_div. split.
   - apply Z.div_pos; lia.
-  - apply Z.div_le_upper_bound; [exact Hd | nia].
+  - rewrite <- (Z.div_1_r (n + (d - 1))) at 2. apply Z.div_le_compat_l; lia.
 Qed.
 
 Lemma ceil_div_ge_one n d : 1 <= n -> 0 < d -> 1 <= ceil_div n d.
